@@ -285,10 +285,6 @@ Print Assumptions C15_close_terminates_partial.
 
 (* ---------------- non-vacuity ---------------- *)
 
-Definition ex_cfg : cfg := mkCfg true true false true true false.
-Definition ex_first (u : string) : first_msg := mkFirst 32 true (Some (u ++ ":peer")%string) "BIND"%string.
-Definition ex_bad : first_msg := mkFirst 600 true (Some "u1:peer"%string) "BIG"%string.
-
 (* a history in which every hypothesis above is met: an agent's GetConnByUfrag, a client for that
    ufrag (routed, attached, delivered in order with its address, answered on its own connection), a
    client for an unknown ufrag (provisional conn, expires), an oversized first frame (rejected), a
